@@ -32,6 +32,15 @@ Property clause → theorem  (model: `Comdex/Model/Liquidation.lean`, both gener
       target = principal + fee, `TotalBorrowed` / `TotalLend` / lend position reduced by exactly what left),
       `C09.flagged_borrow_is_backed`, `C09.failing_step_leaves_no_writes`; generation-1 borrow sell-off:
       `C09.v1_selloff_records` and — FALSE for the transfers — `C09.v1_selloff_can_exceed_collateral_counterexample` (D33).
+* generation-1 borrows end to end (sweep `LiquidateBorrows`, message `MsgLiquidateBorrow`, sell-off, auction start)
+    → `C09.v1_borrow_safe_never_seized` (sweep: safe or kill-switched borrows keep their record; message: w.r.t. its OWN test; the two
+      tests coincide outside e-mode), FALSE for e-mode pairs under the message: `C09.v1_msg_borrow_ignores_emode_counterexample` (D35,
+      replayed on the real code), `C09.v1_borrow_seizure_effect` (exactly one locked vault and one lend auction, amounts, custody).
+* "opens exactly one auction for it", for every auction type the whitelisting can select, and nothing seized when none is
+    → `C09.auction_type_follows_whitelisting`; the messages that seize nobody: `C09.external_liquidation_touches_no_position`;
+      `MsgLiquidateInternalKeeper` = step + keeper mark: `C09.keeper_message_is_step_plus_mark`.
+* liveness when governance changes the batch size mid-sweep → `C09.sweep_live_varbatch_partial` (any positive sizes; the block
+  that covers index `i` comes at most `i` blocks after the sweep start), `C09.zero_batch_processes_nothing` (why `> 0` is validated).
 * accrual: `C09.vault_safe_after_accrual_not_seized`, `C09.vault_decision_is_on_recorded_debt` (the vault decision ignores
   interest not yet booked), `C09.borrow_decision_after_accrual`.
 * emergency controls and whitelisting: `C09.safe_never_seized` now carries `GuardsOff` for every removed vault and the kill
@@ -54,7 +63,7 @@ theorem safe_never_seized :
     (∀ e liqType id w w', NodupIds w → NodupB w → msgLiquidateV2 e liqType id w = some w' → Removes e w w' ∧ KeepsB e w w') ∧
     (∀ e app id w w', NodupIds w → msgLiquidateVaultV1 e app id w = some w' → Removes e w w') :=
   ⟨fun e batch w w' hn hb h => let r := blockV2_rel e batch w w' hn hb h; ⟨r.1, r.2.1⟩,
-   fun e batch w w' hU hn h => (blockV1_rel e batch w w' hU hn h).1,
+   fun e batch w w' hU hn h => blockV1_rel e batch w w' hU hn h,
    fun e t id w w' hn hb h => let r := msgLiquidateV2_rel e t id w w' hn hb h; ⟨r.1, r.2.1⟩,
    fun e a id w w' hn h => (msgLiquidateVaultV1_rel e a id w w' hn h).1⟩
 
@@ -365,7 +374,8 @@ theorem v2_witness_seized :
 
 /-- **A borrow step does nothing or everything, and hands over exactly what was pledged**: a successful
 `LiquidateIndividualBorrow` either leaves the state unchanged or it addressed an unflagged borrow `b`, unsafe after the accrual
-(ratio `r`), with the kill switch off, the lend app whitelisted with Dutch auctions, and produced `borrowSeized e w id b r`:
+(ratio `r`), with the kill switch off, the lend app whitelisted with Dutch or English auctions activated, and produced
+`borrowSeized e w id b r` (the auction is Dutch iff Dutch is activated — `auction_type_follows_whitelisting`):
 * exactly `b.amountIn` (the pledged cTokens, 1:1 in the underlying) of the collateral asset moves pool → auction account, the
   same amount of cTokens is burnt from the pool account, and the pool held at least that much of both;
 * locked vault: collateral `b.amountIn`, `DebtToken` = the principal (NOT the accrued interest), `FeeToBeCollected` =
@@ -375,7 +385,8 @@ theorem v2_witness_seized :
   `TotalLend(pool, assetIn) −= amountIn`, lend position `−= amountIn` (deleted when nothing is left). -/
 theorem borrow_step_atomic (e : Env) (id : Nat) (w w' : World) (h : liquidateBorrowV2 e id w = some w') :
     w' = w ∨ ∃ b r, w.borrows.find? (·.id == id) = some b ∧ b.liquidated = false ∧ borrowRatio e b = some r ∧
-      borrowUnsafe e b = true ∧ (e.app b.app).kill = false ∧ (e.app b.app).wl2 = true ∧ (e.app b.app).dutch2 = true ∧
+      borrowUnsafe e b = true ∧ (e.app b.app).kill = false ∧ (e.app b.app).wl2 = true ∧
+      ((e.app b.app).dutch2 = true ∨ (e.app b.app).english2 = true) ∧
       b.amountIn ≤ w.poolBal.get b.assetIn ∧ b.amountIn ≤ w.poolBal.get b.cAsset ∧ w' = borrowSeized e w id b r ∧
       w'.auctionBal.get b.assetIn = w.auctionBal.get b.assetIn + b.amountIn ∧
       w'.totalBorrowed.get (statKey b.outPool b.assetOut) = w.totalBorrowed.get (statKey b.outPool b.assetOut) - b.principal ∧
@@ -558,6 +569,234 @@ theorem v1_selloff_can_exceed_collateral_counterexample :
       o.toAuction = 1394003545 ∧ o.toAuction > 1083074820 ∧ o.totalDeduction = 1394003545 ∧ o.newAmountIn = 0 ∧ o.lendReduction = 1083074820 := by
   exact ⟨_, rfl, by decide, by decide, by decide, by decide, by decide⟩
 
+/-! ## generation 1 borrows end to end (`LiquidateBorrows` sweep, `MsgLiquidateBorrow`) -/
+
+/-- **Generation-1 borrows: safe ⇒ never seized by the sweep; the message applies its own (e-mode blind) test.**
+(1) after any generation-1 block hook an unflagged borrow that fails the sweep's test `borrowUnsafe` (ratio after the accrual >
+the applicable threshold, e-mode aware, all three bridge cases) or whose app has the kill switch on still has an identical record;
+(2) after any `MsgLiquidateBorrow` the same holds with the MESSAGE's test `borrowUnsafeMsgV1`, and no vault is touched;
+(3) for a pair that is not in e-mode the two tests are the same function — so for those pairs the message is safe too.
+The gap for e-mode pairs is real: next theorem. -/
+theorem v1_borrow_safe_never_seized :
+    (∀ e batch w w', AppsUnique e → NodupIds w → NodupB w → (blockV1 e batch w).world? = some w' → KeepsB1 e w w') ∧
+    (∀ e id w w', NodupB w → msgLiquidateBorrowV1 e id w = some w' → KeepsBMsg1 e w w' ∧ Removes e w w') ∧
+    (∀ e b, b.emode = false → borrowUnsafeMsgV1 e b = borrowUnsafe e b) := by
+  refine ⟨fun e batch w w' hU hn hb h => (blockV1_keepsB1 e batch w w' hU hn hb h).1,
+          fun e id w w' hb h => let r := msgLiquidateBorrowV1_rel e id w w' hb h; ⟨r.1, r.2.1⟩, ?_⟩
+  intro e b hem
+  unfold borrowUnsafeMsgV1 borrowUnsafe borrowThresholdMsgV1 borrowThreshold Borrow.baseThreshold
+  simp [hem]
+
+def emodeEnv : Env :=
+  { assets := [{ id := 6, decimals := 1000000, price := some 1000000 }, { id := 7, decimals := 1000000, price := some 1000000 }]
+    apps := [{ id := 3, lendAuc1 := true }] }
+
+/-- an e-mode pair: normal threshold 0.80, e-mode threshold 0.85; debt 82 against collateral 100 (ratio 0.82) -/
+def emodeWorld : World :=
+  { borrows := [{ id := 1, app := 3, pool := 1, assetIn := 6, assetOut := 7, amountIn := 100000000, principal := 82000000, cAsset := 9, lendId := 1,
+                  outPool := 1, bridgedAmount := 0, bridgedAsset := 0, firstTransit := 8, secondTransit := 6, liquidated := false, emode := true,
+                  lt := 800000000000000000, elt := 850000000000000000, ltFirst := 0, ltSecond := 0,
+                  ltv := 750000000000000000, pen := 50000000000000000, epen := 50000000000000000, bon := 50000000000000000 }]
+    poolBal := [(6, 1000000000), (9, 1000000000)], auctionBal := [(6, 0)], reserveBal := [(6, 0)], lendBal := [(1, 100000000)] }
+
+/-- **Generation-1 `MsgLiquidateBorrow` seizes a SAFE borrow of an e-mode pair** (msg_server.go:153,170,185 use
+`LiquidationThreshold`; the sweep, liquidate_borrow.go:82-85, uses `ELiquidationThreshold`): ratio 0.82 ≤ e-mode threshold 0.85,
+the block hook leaves the borrow alone (only its offset moves), anybody's message flags it, sells 40 000 000 + bonus units of
+its collateral off and opens an auction. Replayed on the real code by `c09WitnessEmodeMsgV1` (monitor
+`gen1_msg_borrow_ignores_emode`, finding D35). -/
+theorem v1_msg_borrow_ignores_emode_counterexample :
+    borrowUnsafe emodeEnv (emodeWorld.borrows.getD 0 default) = false ∧
+    (blockV1 emodeEnv 5 emodeWorld).world? = some { emodeWorld with offsets := [(3, 1)] } ∧
+    (∃ w', msgLiquidateBorrowV1 emodeEnv 1 emodeWorld = some w' ∧ w'.borrows.map (·.liquidated) = [true] ∧
+      w'.auctionBal.get 6 = 42000000 ∧ w'.newAuctions.map (·.amount) = [40000000] ∧ w'.newLocked.map (·.orig) = [1]) := by
+  refine ⟨by decide, rfl, _, rfl, by decide, by decide, by decide, by decide⟩
+
+/-- **What a generation-1 borrow seizure does** (sweep body and message alike): a successful step either changes nothing or
+addressed an unflagged borrow `b` with the kill switch off, judged unsafe by the step's own test at ratio `r`, and: the sell-off
+`o = sellOffV1 (b.sellOffIn e)` was computed; the pool held `toAuction + toReserve` of the collateral and `totalDeduction`
+cTokens; exactly `o.toAuction` units went pool → auction account and `o.toReserve` pool → reserve; the borrow is flagged and keeps
+`o.newAmountIn` collateral; the lend position and `TotalLend` shrink by `o.lendReduction` with
+`newAmountIn + lendReduction = amountIn` (records consistent — the transfers are NOT capped: D33); the locked-vault id and the
+LEND auction id advance by one, the vault auction id does not; exactly one locked vault (for `b`, holding `newAmountIn`,
+`CollateralToBeAuctioned = selloff`) and exactly one auction for it (Dutch, over `trunc(selloff / unit value of the collateral)`
+units, target `trunc(selloff / unit value of the debt asset)`) are appended; the vault side is untouched. -/
+theorem v1_borrow_seizure_effect (e : Env) (sweep : Bool) (id : Nat) (w w' : World) (h : liquidateBorrowV1 e sweep id w = some w') :
+    w' = w ∨ ∃ b r i o, w.borrows.find? (·.id == id) = some b ∧ b.liquidated = false ∧ (e.app b.app).kill = false ∧
+      borrowRatio e b = some r ∧ borrowUnsafeV1 e sweep b = true ∧ SeizedV1 e sweep b r w w' i o ∧
+      (0 ≤ b.amountIn → o.newAmountIn + o.lendReduction = b.amountIn ∧ 0 ≤ o.newAmountIn ∧ 0 ≤ o.toAuction ∧ 0 ≤ o.toReserve) := by
+  cases liquidateBorrowV1_cases e sweep id w w' h with
+  | inl h => exact Or.inl h
+  | inr h =>
+    obtain ⟨b, r, hf, hl, hk, hr, hgt, hs⟩ := h
+    obtain ⟨i, o, S⟩ := seizeBorrowV1_spec e sweep b r w w' hs
+    refine Or.inr ⟨b, r, i, o, hf, hl, hk, hr, borrowUnsafeV1_of e sweep b r hr hgt, S, fun hnn => ?_⟩
+    have hi : i.amountIn = b.amountIn := by
+      have := S.hin
+      unfold Borrow.sellOffIn at this
+      split at this
+      · split at this
+        · simp only [Option.some.injEq] at this; rw [← this]
+        · cases this
+      · cases this
+    have hrec := v1_selloff_records i o S.hout (by rw [hi]; exact hnn)
+    rw [hi] at hrec
+    exact ⟨hrec.2.1, hrec.1, hrec.2.2.2.1, hrec.2.2.2.2.1⟩
+
+/-! ## generation 2: which auction type, and the messages that seize nobody -/
+
+/-- **The auction a seizure opens is of the type the app's whitelisting selects — and with no type enabled nothing is seized.**
+(1) a generation-2 borrow step that changes the state appends exactly one auction, Dutch iff `IsDutchActivated`, and the app has
+Dutch or English activated; ids advance by one; (2) a vault of an app WITHOUT Dutch activated is never seized (English-only
+apps included: liquidate.go:136) — a successful step changes nothing; (3) a borrow of an app with neither type activated is
+never seized. In (2)/(3) the failing attempt is an error (`none`), whose writes both callers drop: no collateral moves
+without an auction. -/
+theorem auction_type_follows_whitelisting :
+    (∀ (e : Env) (id : Nat) (w w' : World), liquidateBorrowV2 e id w = some w' →
+      w' = w ∨ ∃ b a, w.borrows.find? (·.id == id) = some b ∧ w'.newAuctions = w.newAuctions ++ [a] ∧
+        a.dutch = (e.app b.app).dutch2 ∧ ((e.app b.app).dutch2 = true ∨ (e.app b.app).english2 = true) ∧
+        w'.auctionId = w.auctionId + 1 ∧ w'.lockedId = w.lockedId + 1 ∧ a.amount = b.amountIn) ∧
+    (∀ (e : Env) (id : Nat) (w w' : World) (v : Vault), w.vaults.find? (·.id == id) = some v → (e.app v.app).dutch2 = false →
+      liquidateVaultV2 e id w = some w' → w' = w) ∧
+    (∀ (e : Env) (id : Nat) (w w' : World) (b : Borrow), w.borrows.find? (·.id == id) = some b →
+      (e.app b.app).dutch2 = false → (e.app b.app).english2 = false → liquidateBorrowV2 e id w = some w' → w' = w) := by
+  refine ⟨?_, ?_, ?_⟩
+  · intro e id w w' h
+    cases liquidateBorrowV2_cases e id w w' h with
+    | inl h => exact Or.inl h
+    | inr h =>
+      obtain ⟨b, r, hf, _, _, _, _, _, hty, _, _, hw⟩ := h
+      exact Or.inr ⟨b, _, hf, by rw [hw]; rfl, rfl, hty, by rw [hw]; rfl, by rw [hw]; rfl, rfl⟩
+  · intro e id w w' v hf hd h
+    cases liquidateVaultV2_cases e id w w' h with
+    | inl h => exact h
+    | inr h =>
+      obtain ⟨v', _, _, hf', _, _, _, hd', _, _⟩ := h
+      rw [hf] at hf'
+      cases hf'
+      rw [hd] at hd'; cases hd'
+  · intro e id w w' b hf hd he h
+    cases liquidateBorrowV2_cases e id w w' h with
+    | inl h => exact h
+    | inr h =>
+      obtain ⟨b', _, hf', _, _, _, _, _, hty, _⟩ := h
+      rw [hf] at hf'
+      cases hf'
+      rcases hty with hty | hty
+      · rw [hd] at hty; cases hty
+      · rw [he] at hty; cases hty
+
+/-- **`MsgLiquidateExternalKeeper` and `MsgAppReserveFunds` seize nobody.** An accepted external liquidation leaves the vault list,
+the counter, the offsets, every borrow, vault custody and pool custody untouched; it needed positive reserve funds for (app, debt
+asset), the app whitelisted with Dutch auctions, and the sender holding the collateral; exactly `collAmt` enters auction custody,
+and exactly one locked vault (original id 0) and one Dutch auction over `collAmt` with the locked vault's target are appended.
+An accepted reserve-funds message changes only the reserve and the module's own account. -/
+theorem external_liquidation_touches_no_position :
+    (∀ (e : Env) (app ca da : Nat) (camt damt ub : Int) (w w' : World), msgLiquidateExternalV2 e app ca da camt damt ub w = some w' →
+      w'.vaults = w.vaults ∧ w'.counter = w.counter ∧ w'.offsets = w.offsets ∧ w'.borrows = w.borrows ∧ w'.vaultBal = w.vaultBal ∧
+      w'.poolBal = w.poolBal ∧ 0 < w.appReserve.get (statKey app da) ∧ (e.app app).wl2 = true ∧ (e.app app).dutch2 = true ∧ camt ≤ ub ∧
+      w'.auctionBal.get ca = w.auctionBal.get ca + camt ∧ w'.lockedId = w.lockedId + 1 ∧ w'.auctionId = w.auctionId + 1 ∧
+      ∃ l a, w'.newLocked = w.newLocked ++ [l] ∧ w'.newAuctions = w.newAuctions ++ [a] ∧ l.orig = 0 ∧ l.amountIn = camt ∧
+        a.amount = camt ∧ a.asset = ca ∧ a.locked = l.id ∧ a.dutch = true ∧ a.target = l.target ∧ l.target = l.debt + l.fee ∧ l.debt = damt) ∧
+    (∀ (e : Env) (app asset : Nat) (dok : Bool) (amt ub : Int) (w w' : World), msgAppReserveFunds e app asset dok amt ub w = some w' →
+      w'.vaults = w.vaults ∧ w'.borrows = w.borrows ∧ w'.vaultBal = w.vaultBal ∧ w'.poolBal = w.poolBal ∧ w'.auctionBal = w.auctionBal ∧
+      w'.newLocked = w.newLocked ∧ w'.newAuctions = w.newAuctions ∧ amt ≤ ub ∧
+      w'.appReserve.get (statKey app asset) = w.appReserve.get (statKey app asset) + amt) := by
+  constructor
+  · intro e app ca da camt damt ub w w' h
+    unfold msgLiquidateExternalV2 at h
+    split at h
+    · cases h
+    · split at h
+      · split at h
+        · cases h
+        · rename_i hres
+          split at h
+          · cases h
+          · split at h
+            · cases h
+            · rename_i hub
+              simp only at h
+              split at h
+              · cases h
+              · rename_i hwl
+                split at h
+                · cases h
+                · simp only [Option.some.injEq] at h
+                  subst h
+                  have hwl' : (e.app app).wl2 = true ∧ (e.app app).dutch2 = true := by
+                    cases h1 : (e.app app).wl2 <;> cases h2 : (e.app app).dutch2 <;> simp_all
+                  refine ⟨rfl, rfl, rfl, rfl, rfl, rfl, by omega, hwl'.1, hwl'.2, by omega, ?_, rfl, rfl,
+                    _, _, rfl, rfl, rfl, rfl, rfl, rfl, rfl, rfl, rfl, rfl, rfl⟩
+                  simp only
+                  by_cases h0 : camt = 0
+                  · simp [h0]
+                  · simp only [h0, if_false]; exact Bal.get_add_self _ _ _
+      · cases h
+  · intro e app asset dok amt ub w w' h
+    unfold msgAppReserveFunds at h
+    split at h
+    · cases h
+    · split at h
+      · cases h
+      · split at h
+        · cases h
+        · split at h
+          · cases h
+          · simp only [Option.some.injEq] at h
+            subst h
+            exact ⟨rfl, rfl, rfl, rfl, rfl, rfl, rfl, by omega, Bal.get_add_self _ _ _⟩
+
+/-- **`MsgLiquidateInternalKeeper` = the per-position step + the keeper mark**: the delivered message is `msgLiquidateV2` (to which
+`safe_never_seized`, `seize_opens_one_auction`, `borrow_step_atomic` apply) followed by setting `IsInternalKeeper` on the locked
+vaults it appended; the mark changes nothing else. -/
+theorem keeper_message_is_step_plus_mark (e : Env) (liqType id : Nat) (w w'' : World) (h : msgLiquidateV2K e liqType id w = some w'') :
+    ∃ w', msgLiquidateV2 e liqType id w = some w' ∧ w'' = markViaMsg w.newLocked.length w' ∧
+      w''.vaults = w'.vaults ∧ w''.borrows = w'.borrows ∧ w''.vaultBal = w'.vaultBal ∧ w''.poolBal = w'.poolBal ∧
+      w''.auctionBal = w'.auctionBal ∧ w''.newAuctions = w'.newAuctions ∧ w''.lockedId = w'.lockedId ∧ w''.auctionId = w'.auctionId ∧
+      w''.newLocked.map (fun l => { l with viaMsg := false }) = w'.newLocked.map (fun l => { l with viaMsg := false }) := by
+  unfold msgLiquidateV2K at h
+  cases hm : msgLiquidateV2 e liqType id w with
+  | none => rw [hm] at h; cases h
+  | some w' =>
+    rw [hm] at h
+    simp only [Option.map_some, Option.some.injEq] at h
+    subst h
+    refine ⟨w', rfl, rfl, rfl, rfl, rfl, rfl, rfl, rfl, rfl, rfl, ?_⟩
+    unfold markViaMsg
+    simp only [List.map_append, List.map_map]
+    conv => rhs; rw [← List.take_append_drop w.newLocked.length w'.newLocked, List.map_append]
+    rfl
+
+/-! ## liveness when the batch size changes mid-sweep -/
+
+/-- **Liveness under governance changes of the batch size** (`LiquidationBatchSize` is a parameter; the validator only demands
+`> 0`): block `k` runs with batch `bt k > 0`. A sweep that starts at block `t` covers the indices `[covered K, covered (K+1))`
+in its block `t + K` (`covered K` = sum of the first `K` batch sizes). If position `p` stays at index `i` up to that block it is
+handed to the step there; and that block exists with `K ≤ i` — a position is reached at most `i` blocks after the sweep start
+whatever governance does to the batch size. With a constant batch this is `sweep_live_partial` (`K = i / batch`). Excluded
+adversarial condition as before: a position BEFORE `p` is deleted during these blocks. -/
+theorem sweep_live_varbatch_partial (bt : Nat → Nat) (hb : ∀ k, 0 < bt k) (r : Nat → Sw) (hev : EvolvesV bt r) (t i p : Nat)
+    (hstart : (r t).starts (bt t) = true) :
+    ∃ K, K ≤ i ∧ covered bt t K ≤ i ∧ i < covered bt t (K+1) ∧
+      ((∀ k, k ≤ K → (r (t+k)).l[i]? = some p) → p ∈ (r (t + K)).processed (bt (t+K))) := by
+  obtain ⟨K, hK, h1, h2⟩ := covered_block_exists bt hb t i
+  exact ⟨K, hK, h1, h2, fun hpos => sweep_live_varbatch_aux bt hb r hev t i p K hstart h1 h2 hpos⟩
+
+/-- a zero batch size — which would stop every sweep: the range is always empty — is not a valid parameter value
+(`validateLiquidationBatchSize`, both generations; the harness replays `SetParams(0)`: the parameter store panics) -/
+theorem zero_batch_processes_nothing (s : Sw) : s.processed 0 = [] := by
+  unfold Sw.processed sweepBounds sliceBounds
+  by_cases h : s.off ≥ s.l.length
+  · simp only [h, if_true]
+    by_cases h0 : (0 : Nat) ≥ s.l.length
+    · simp [h0]
+    · simp [h0]
+  · simp only [h, if_false]
+    have h2 : ¬ (s.off + 0 ≥ s.l.length) := by omega
+    simp only [h2, if_false]
+    have h3 : ¬ ((0:Nat) ≥ s.l.length) := by omega
+    simp [h3]
+
 /-! ## non-vacuity -/
 
 -- the hypotheses of `safe_never_seized` hold of a non-trivial state on which the hook really seizes
@@ -580,5 +819,23 @@ example : vaultPass 1 0 3 (fun v => liquidateVaultV2 witEnv v.id) { witWorld wit
 
 -- `ratio_test_safe_side_exact` at equality: ratio exactly 1.5
 example : ¬ (Dec.quo (3 * Dec.P) (2 * Dec.P) < 1500000000000000000) := by decide
+
+-- `v1_borrow_safe_never_seized` / `v1_borrow_seizure_effect`: the hypotheses hold of the e-mode witness and the message really seizes
+example : AppsUnique emodeEnv ∧ NodupIds emodeWorld ∧ NodupB emodeWorld ∧
+    ∃ w', liquidateBorrowV1 emodeEnv false 1 emodeWorld = some w' ∧ w' ≠ emodeWorld ∧ w'.lendAuctionId = 1 ∧ w'.auctionId = 0 :=
+  ⟨by unfold AppsUnique; decide, by unfold NodupIds; decide, by unfold NodupB; decide, _, rfl, by intro h; have := congrArg World.lockedId h; revert this; decide, by decide, by decide⟩
+
+-- `auction_type_follows_whitelisting`: English-only whitelisting — the borrow of the leak witness is sold by an English auction
+example : ∃ w', (blockV2 { leakEnv with apps := [{ id := 3, wl2 := true, dutch2 := false, english2 := true }] } 5 leakWorld).world? = some w' ∧
+    w'.borrows.map (·.liquidated) = [true] ∧ w'.newAuctions.map (·.dutch) = [false] ∧ w'.auctionBal.get 6 = 100000000 :=
+  ⟨_, rfl, by decide, by decide, by decide⟩
+
+-- `external_liquidation_touches_no_position`: an accepted external liquidation
+example : ∃ w', msgLiquidateExternalV2 { witEnv with aucParams2 := some (100000000000000000, 0) } 1 1 2 5000 4000 9000
+      { witWorld with appReserve := [(statKey 1 2, 10)] } = some w' ∧ w'.vaults = witWorld.vaults ∧ w'.newLocked.map (·.target) = [4400] :=
+  ⟨_, rfl, rfl, by decide⟩
+
+-- `sweep_live_varbatch_partial`: batch sizes 2, 1, 3, … cover index 4 in the third block of the sweep
+example : covered (fun k => [2, 1, 3].getD k 1) 0 2 ≤ 4 ∧ 4 < covered (fun k => [2, 1, 3].getD k 1) 0 3 := by decide
 
 end Comdex.C09
